@@ -54,6 +54,10 @@ class Stats(object):
     def cls(self, name, n=1):
         self.classes[name] += n
 
+    def note(self, text):
+        if text not in self.notes:
+            self.notes.append(text)
+
     def nontriv(self, key):
         self.nontrivial.add(stable_hash(key))
 
@@ -229,9 +233,63 @@ def replay_escaped(case, stats):
         run_case(func, arg, stats)
 
 
+class BudgetExceeded(BaseException):
+    pass
+
+
+class _GiveUp(Exception):
+    pass
+
+
+class time_budget(object):
+    """Abandon what runs inside after `seconds` (main thread of the worker process only).  Budgets nest: leaving an
+    inner one re-arms what is left of the outer one.  An abandoned case is *inconclusive*, never a verdict: the budgets
+    are orders of magnitude above what a case takes on the unchanged tree and only keep a check from hanging (or from
+    eating the machine's memory) when a changed library loops forever."""
+
+    def __init__(self, seconds):
+        self.seconds = seconds
+        self.armed = False
+
+    def __enter__(self):
+        import signal
+        import threading
+        if threading.current_thread() is threading.main_thread():
+            def onalarm(signum, frame):
+                raise BudgetExceeded()
+            self.t0 = time.time()
+            self.outer = signal.getitimer(signal.ITIMER_REAL)[0]
+            self.old = signal.signal(signal.SIGALRM, onalarm)
+            signal.setitimer(signal.ITIMER_REAL, self.seconds if not self.outer else min(self.seconds, self.outer))
+            self.armed = True
+        return self
+
+    def __exit__(self, *exc):
+        if self.armed:
+            import signal
+            signal.setitimer(signal.ITIMER_REAL, 0)
+            signal.signal(signal.SIGALRM, self.old)
+            if self.outer:
+                signal.setitimer(signal.ITIMER_REAL, max(0.05, self.outer - (time.time() - self.t0)))
+        return False
+
+
+CASE_BUDGET = 20        # seconds; cases take milliseconds to a few hundred milliseconds
+MAX_ABANDONED = 3       # per search: after that many abandoned cases the rest of the search is given up (recorded in the evidence)
+
+
+def abandoned(stats, what):
+    stats.cls('inconclusive: %s abandoned after its time budget' % what)
+    stats.extra['abandoned_cases'] += 1
+    stats.note('%s abandoned after its time budget (inconclusive, not a verdict)' % what)
+
+
 def run_case(check, case, stats):
     try:
-        check(case, stats)
+        with time_budget(CASE_BUDGET):
+            check(case, stats)
+    except BudgetExceeded:
+        abandoned(stats, 'a generated case')
     except Exception as e:
         if not escaped(stats, e, 'escaped-from-case', check, case):
             raise
@@ -263,8 +321,14 @@ def hyp_search(strategy, check, stats, max_examples, seed_value, shrink_budget=4
     @hyp_settings(max_examples)
     @given(strategy)
     def search(case):
+        n0 = stats.extra['abandoned_cases']
         run_case(check, case, stats)
-    search()
+        if stats.extra['abandoned_cases'] > n0 and stats.extra['abandoned_cases'] >= MAX_ABANDONED:
+            raise _GiveUp()
+    try:
+        search()
+    except _GiveUp:
+        stats.note('search given up after %d abandoned cases' % stats.extra['abandoned_cases'])
 
     for bucket in [b for b in stats.failures if b not in before]:
         best = {}
